@@ -8,6 +8,51 @@ OPTIONAL = {"image_hash": "InvalidImageHashLength", "image_key": "InvalidImageKe
             "image_upload_key": "InvalidImageUploadKeyLength"}
 
 
+def _ref_chain(f, local):
+    """the locals a reference / copy chain leads back to (`&mut *(&mut rest)` -> rest)"""
+    seen, todo = set(), [local]
+    while todo:
+        l = todo.pop()
+        if l in seen:
+            continue
+        seen.add(l)
+        for bb, kind, x in f.defs().get(l, []):
+            if kind == "stmt" and x.get("k") in ("ref", "use", "cast") and x.get("o") and "p" in x["o"][0]:
+                todo.append(x["o"][0]["p"][0])
+    return seen
+
+
+def _remainder_checked(f, locs):
+    """some `is_empty()` on one of the locals guards every Ok return (its false side only reaches error exits)"""
+    for e in f.live_calls():
+        if e.name == "is_empty" and e.args and "p" in e.args[0] and (_ref_chain(f, e.args[0]["p"][0]) & locs) and e.dst:
+            edges = A.bool_true_edges(f, e)
+            r = A.reach_without_edges(f, 0, edges, A.err_exit_blocks(f))
+            if edges and not any(f.term(b)["k"] == "return" for b in r):
+                return True
+    return False
+
+
+def exact_decode_verdict(f, c):
+    """(is exact?, how) for one tls_codec decode call: the _exact forms; tls_deserialize_bytes whose remainder is tested empty;
+    tls_deserialize(&mut reader) whose reader is tested empty afterwards — in both manual forms the non-empty side must be an error exit"""
+    if c.name in ("tls_deserialize_exact", "tls_deserialize_exact_bytes"):
+        return True, "exact TLS decode (trailing bytes are an error)"
+    if c.name == "tls_deserialize_bytes" and c.dst:
+        fl = f.flows_from({c.dst[0]}, through_calls=True, stop_calls=lambda x: x.krate not in ("core", "alloc", "std"))
+        return _remainder_checked(f, fl), "the remainder is checked empty before the value is used"
+    if c.name == "tls_deserialize" and c.args and "p" in c.args[0]:
+        # the reader variable itself: the `&[u8]` local at the end of the `&mut` chain handed to the decoder
+        readers = set(l for l in _ref_chain(f, c.args[0]["p"][0]) if f.locals[l].replace(" ", "") in ("&[u8]", "&'_[u8]") or f.locals[l].endswith("&[u8]") and not f.locals[l].startswith("&mut"))
+        if readers:
+            return _remainder_checked(f, readers), "the reader is checked empty after the decode (leftover bytes are an error)"
+    return False, ""
+
+
+def is_exact_decode(c):
+    return (c.trait or "").startswith("tls_codec::") and c.name.startswith("tls_deserialize") and exact_decode_verdict(c.fn, c)[0]
+
+
 def clause_exact_decode(prog, rep):
     n = 0
     for f in prog.nontest_fns(("mdk_core", "mdk_uniffi")):
@@ -19,24 +64,10 @@ def clause_exact_decode(prog, rep):
                 what = "%s::%s" % (last_seg((c.gen or ["?"])[0]), c.name)
                 root = prog.fns.get(f.root, f)
                 inst = "%s/%s" % (root.label(), what)
-                if c.name == "tls_deserialize_exact" or c.name == "tls_deserialize_exact_bytes":
-                    rep.ok("exact-decode", inst, "exact TLS decode (trailing bytes are an error)", c.loc())
-                elif c.name == "tls_deserialize_bytes":
-                    # (value, remainder): the remainder must be tested empty, non-empty side -> error
-                    ok = False
-                    fl = f.flows_from({c.dst[0]}, through_calls=True, stop_calls=lambda x: x.krate not in ("core", "alloc", "std"))
-                    for e in f.live_calls():
-                        if e.name == "is_empty" and e.args and "p" in e.args[0] and e.args[0]["p"][0] in fl and e.dst:
-                            edges = A.bool_true_edges(f, e)
-                            r = A.reach_without_edges(f, 0, edges, A.err_exit_blocks(f))
-                            if edges and not any(f.term(b)["k"] == "return" for b in r):
-                                ok = True
-                    rep.check(ok, "exact-decode", inst, "the remainder is checked empty before the value is used",
-                              "tls_deserialize_bytes result is used although bytes remain after the structure", c.loc())
-                else:
-                    rep.violation("exact-decode", inst,
-                                  "%s stops at the end of the structure and silently ignores trailing bytes: the same logical value has many "
-                                  "accepted encodings (use tls_deserialize_exact)" % what, c.loc())
+                ok, how = exact_decode_verdict(f, c)
+                rep.check(ok, "exact-decode", inst, how,
+                          "%s stops at the end of the structure and the bytes after it are never required to be absent: the same logical value "
+                          "has many accepted encodings (use tls_deserialize_exact or test the remainder)" % what, c.loc())
     rep.floor("exact-decode", "TLS decode sites of external bytes", n, 4)
 
 
@@ -65,7 +96,7 @@ def clause_key_package(prog, rep):
     for f in fs:
         must = [
             ("encoding-tag", lambda c: c.name == "from_tags" and last_seg(c.self_adt) == "ContentEncoding", "the mandatory encoding tag is looked up"),
-            ("exact-decode", lambda c: c.name == "tls_deserialize_exact", "the content is decoded exactly"),
+            ("exact-decode", is_exact_decode, "the content is decoded exactly"),
             ("kp-validate", lambda c: c.name == "validate" and last_seg(c.self_adt) == "KeyPackageIn", "OpenMLS validates the package signature / lifetime"),
             ("credential-identity", lambda c: c.name == "identity" and last_seg(c.self_adt) == "BasicCredential", "the credential identity is read"),
         ]
@@ -114,7 +145,7 @@ def clause_welcome(prog, rep):
     for f in fs:
         for key, pred, txt in [
             ("encoding-tag", lambda c: c.name == "from_tags" and last_seg(c.self_adt) == "ContentEncoding", "the mandatory encoding tag is looked up"),
-            ("exact-decode", lambda c: c.name == "tls_deserialize_exact", "the welcome is decoded exactly"),
+            ("exact-decode", is_exact_decode, "the welcome is decoded exactly"),
         ]:
             # only on the path that actually parses (a recorded wrapper id returns early): use the preview's extent
             prev = [t for c in f.live_calls() for t in prog.call_targets(c) if any(x.name == "build_from_welcome" for p in prog.extent(t) if p in prog.fns for x in prog.fns[p].live_calls())]
